@@ -8,7 +8,7 @@ From SV Require Import Proofs.NeighborProofs Proofs.RouteProofs.
 (* ---------- events of an interface ---------- *)
 
 Inductive event :=
-| EvRx (now : Z) (f : rxframe)                     (* a received Ethernet frame (process_ethernet) *)
+| EvRx (now : Z) (f : rxframe)                     (* a received Ethernet / 802.15.4 frame *)
 | EvDispatch (now : Z) (dst : ipaddr) (tag : Z)    (* an IP packet handed to dispatch_ip *)
 | EvAddrs (l : list cidr)                          (* update_ip_addrs *)
 | EvRoutes (r : list route).                       (* any change of the route table *)
@@ -17,7 +17,7 @@ Definition stamp (now : Z) (fr : list frame) : list (Z * frame) := map (pair now
 
 Definition nh_step (i : iface) (e : event) : outcome (iface * list (Z * frame)) :=
   match e with
-  | EvRx now f => do '(i', fr) <- nh_process_ethernet i now f; Ok (i', stamp now fr)
+  | EvRx now f => do '(i', fr) <- nh_process_rx i now f; Ok (i', stamp now fr)
   | EvDispatch now dst tag => do '(i', fr, _) <- nh_dispatch_ip i dst tag now; Ok (i', stamp now fr)
   | EvAddrs l => Ok (nh_update_ip_addrs i l, [])
   | EvRoutes r => Ok (set_routes i r, [])
@@ -59,6 +59,16 @@ Definition link_ok (i : iface) (f : rxframe) : bool :=
   | RxArp _ _ _ _ _ => true
   | RxV4Echo e _ _ dst => eth_is_unicast e || v4_is_multicast dst || nh_is_broadcast_v4 i dst
   | RxV6 e _ _ dst _ _ => eth_is_unicast e || v6_is_multicast dst
+  | Rx154 _ ldst _ _ dst _ _ => negb (ldst =? IEEE_BROADCAST) || v6_is_multicast dst
+  end.
+
+(* frame reaches the IP layer of this interface: Ethernet frames on Ethernet for our station /
+   broadcast / multicast; 802.15.4 frames on 802.15.4 with an accepted PAN id (any destination
+   hardware address) *)
+Definition medium_accept (i : iface) (f : rxframe) : bool :=
+  match f with
+  | Rx154 panok _ _ _ _ _ _ => negb (if_ether i) && panok
+  | _ => if_ether i && eth_accept i (rx_edst f)
   end.
 
 (* cache operations of process_ipv6 + process_ndisc *)
@@ -70,11 +80,11 @@ Definition v6_log (i : iface) (now : Z) (esrc src dst hop : Z) (p : v6payload) :
     (if hop =? 255 then
        match p with
        | P6Na target (Some l) ovr =>
-           if hw_is_unicast i l && v6_x_is_unicast target &&
+           if hw_option_ok i l && hw_is_unicast i l && v6_x_is_unicast target &&
               (ovr || negb (answer_found (neigh_lookup c1 (V6 src) now)))
            then [CFill (V6 src) l now] else []
        | P6Ns target (Some l) =>
-           if hw_is_unicast i l && v6_x_is_unicast target then [CFill (V6 src) l now] else []
+           if hw_option_ok i l && hw_is_unicast i l && v6_x_is_unicast target then [CFill (V6 src) l now] else []
        | _ => []
        end
      else [])
@@ -82,7 +92,7 @@ Definition v6_log (i : iface) (now : Z) (esrc src dst hop : Z) (p : v6payload) :
 
 (* the cache operations performed for a received frame *)
 Definition rx_log (i : iface) (now : Z) (f : rxframe) : list cop :=
-  if negb (eth_accept i (rx_edst f)) then []
+  if negb (medium_accept i f) then []
   else if negb (link_ok i f) then []
   else
     match f with
@@ -91,6 +101,7 @@ Definition rx_log (i : iface) (now : Z) (f : rxframe) : list cop :=
     | RxV4Echo _ esrc src dst =>
         if v4_accept i src dst && nh_is_unicast_v4 i dst then [CReset (V4 src) esrc now] else []
     | RxV6 _ esrc src dst hop p => v6_log i now esrc src dst hop p
+    | Rx154 _ _ lsrc src dst hop p => v6_log i now lsrc src dst hop p
     end.
 
 Definition ev_log (i : iface) (e : event) : list cop :=
@@ -272,12 +283,14 @@ Lemma sc_has_multicast_group : forall i c a, nh_has_multicast_group (set_cache i
 Proof. intros; destruct a; reflexivity. Qed.
 Lemma sc_hw_is_unicast : forall i c h, hw_is_unicast (set_cache i c) h = hw_is_unicast i h.
 Proof. reflexivity. Qed.
+Lemma sc_hw_option_ok : forall i c h, hw_option_ok (set_cache i c) h = hw_option_ok i h.
+Proof. reflexivity. Qed.
 Lemma sc_cap : forall i c, if_cap (set_cache i c) = if_cap i.
 Proof. reflexivity. Qed.
 Lemma sc_cache : forall i c, if_cache (set_cache i c) = c.
 Proof. reflexivity. Qed.
 Global Hint Rewrite sc_in_same_network sc_has_ip_addr sc_is_broadcast_v4 sc_is_unicast_v4
-  sc_has_ipv4_source sc_has_solicited_node sc_has_multicast_group sc_hw_is_unicast sc_cap sc_cache : nhc.
+  sc_has_ipv4_source sc_has_solicited_node sc_has_multicast_group sc_hw_is_unicast sc_hw_option_ok sc_cap sc_cache : nhc.
 
 (* a step at time now performing the cache operations [log] and transmitting [fr] *)
 Definition step_ok (i i' : iface) (now : Z) (log : list cop) (fr : list frame) : Prop :=
@@ -371,20 +384,22 @@ Lemma process_ndisc_ok : forall i now src dst p i' fr,
   step_ok i i' now
     (match p with
      | P6Na target (Some l) ovr =>
-         if hw_is_unicast i l && v6_x_is_unicast target &&
+         if hw_option_ok i l && hw_is_unicast i l && v6_x_is_unicast target &&
             (ovr || negb (answer_found (neigh_lookup (if_cache i) (V6 src) now)))
          then [CFill (V6 src) l now] else []
      | P6Ns target (Some l) =>
-         if hw_is_unicast i l && v6_x_is_unicast target then [CFill (V6 src) l now] else []
+         if hw_option_ok i l && hw_is_unicast i l && v6_x_is_unicast target then [CFill (V6 src) l now] else []
      | _ => []
      end) fr.
 Proof.
   intros i now src dst p i' fr H. unfold nh_process_ndisc in H.
   destruct p as [|target [l|] ovr|target [l|]]; try (done_idle H).
-  - destruct (hw_is_unicast i l); destruct (v6_x_is_unicast target); cbn [negb andb orb] in *; try (done_idle H).
+  - destruct (hw_option_ok i l); cbn [negb andb] in *; [|done_idle H].
+    destruct (hw_is_unicast i l); destruct (v6_x_is_unicast target); cbn [negb andb orb] in *; try (done_idle H).
     destruct (ovr || negb (answer_found (neigh_lookup (if_cache i) (V6 src) now))); [|done_idle H].
     inversion H; subst. apply (step_ok_ops i now [CFill (V6 src) l now] eq_refl).
-  - destruct (hw_is_unicast i l); destruct (v6_x_is_unicast target); cbn [negb andb orb] in *; try (done_idle H).
+  - destruct (hw_option_ok i l); cbn [negb andb] in *; [|done_idle H].
+    destruct (hw_is_unicast i l); destruct (v6_x_is_unicast target); cbn [negb andb orb] in *; try (done_idle H).
     autorewrite with nhc in H.
     destruct ((nh_has_solicited_node i dst || nh_has_ip_addr i (V6 dst)) && nh_has_ip_addr i (V6 target)).
     + apply (step_ok_ops_respond i now [CFill (V6 src) l now] _ _ _ _ eq_refl H).
@@ -460,26 +475,49 @@ Proof.
      | destruct (hop =? 255); [apply process_ndisc_ok in H; exact H | done_idle H] ] ]).
 Qed.
 
-Lemma process_ethernet_ok : forall i now f i' fr,
+Lemma process_ethernet_ok : forall i now f i' fr, if_ether i = true ->
   nh_process_ethernet i now f = Ok (i', fr) -> step_ok i i' now (rx_log i now f) fr.
 Proof.
-  intros i now f i' fr H. unfold nh_process_ethernet in H.
+  intros i now f i' fr ETH H. unfold nh_process_ethernet in H.
   assert (EA : (negb (eth_is_broadcast (rx_edst f)) && negb (eth_is_multicast (rx_edst f)) &&
                 negb (rx_edst f =? if_hw i)) = negb (eth_accept i (rx_edst f))).
   { unfold eth_accept. rewrite !negb_orb. reflexivity. }
-  rewrite EA in H. unfold rx_log. destruct (eth_accept i (rx_edst f)) eqn:A; cbn [negb] in *.
-  2:{ done_idle H. }
-  destruct f as [e op sha spa tpa|e esrc src dst|e esrc src dst hop p]; cbn [link_ok negb rx_edst] in *.
-  - destruct (nh_process_arp i now op sha spa tpa) as [i1 f1] eqn:P. inversion H; subst.
+  rewrite EA in H. unfold rx_log.
+  destruct f as [e op sha spa tpa|e esrc src dst|e esrc src dst hop p|panok ldst lsrc src dst hop p];
+    cbn [medium_accept link_ok rx_edst] in *; rewrite ?ETH; cbn [negb andb].
+  - destruct (eth_accept i e) eqn:A; cbn [negb] in *; [|done_idle H].
+    destruct (nh_process_arp i now op sha spa tpa) as [i1 f1] eqn:P. inversion H; subst.
     apply process_arp_ok in P. tauto.
-  - rewrite <- !negb_orb in H.
+  - destruct (eth_accept i e) eqn:A; cbn [negb] in *; [|done_idle H].
+    rewrite <- !negb_orb in H.
     destruct (eth_is_unicast e || v4_is_multicast dst || nh_is_broadcast_v4 i dst); cbn [negb] in *.
     + apply process_ipv4_echo_ok; exact H.
     + done_idle H.
-  - rewrite <- !negb_orb in H.
+  - destruct (eth_accept i e) eqn:A; cbn [negb] in *; [|done_idle H].
+    rewrite <- !negb_orb in H.
     destruct (eth_is_unicast e || v6_is_multicast dst); cbn [negb] in *.
     + apply process_ipv6_ok; exact H.
     + done_idle H.
+  - destruct (eth_accept i ldst); done_idle H.
+Qed.
+
+Lemma process_ieee802154_ok : forall i now f i' fr, if_ether i = false ->
+  nh_process_ieee802154 i now f = Ok (i', fr) -> step_ok i i' now (rx_log i now f) fr.
+Proof.
+  intros i now f i' fr ETH H. unfold nh_process_ieee802154 in H. unfold rx_log.
+  destruct f as [e op sha spa tpa|e esrc src dst|e esrc src dst hop p|panok ldst lsrc src dst hop p];
+    cbn [medium_accept link_ok rx_edst] in *; rewrite ?ETH; cbn [negb andb]; try (done_idle H).
+  destruct panok; cbn [negb] in *; [|done_idle H].
+  destruct (ldst =? IEEE_BROADCAST); destruct (v6_is_multicast dst); cbn [negb andb orb] in *;
+    try (done_idle H); apply process_ipv6_ok; exact H.
+Qed.
+
+Lemma process_rx_ok : forall i now f i' fr,
+  nh_process_rx i now f = Ok (i', fr) -> step_ok i i' now (rx_log i now f) fr.
+Proof.
+  intros i now f i' fr H. unfold nh_process_rx in H. destruct (if_ether i) eqn:E.
+  - apply process_ethernet_ok; auto.
+  - apply process_ieee802154_ok; auto.
 Qed.
 
 (* ---------- one event, whole runs ---------- *)
@@ -554,8 +592,8 @@ Lemma step_spec : forall i e i' tfr, nh_step i e = Ok (i', tfr) ->
   trate (su i) (su i') tfr.
 Proof.
   intros i e i' tfr H. destruct e as [now f|now dst tag|l|r]; cbn [nh_step ev_log] in *.
-  - destruct (nh_process_ethernet i now f) as [[i1 f1]| |] eqn:P; simpl in H; try discriminate.
-    inversion H; subst. apply process_ethernet_ok in P. destruct P as ((A&B&C&_) & S & R).
+  - destruct (nh_process_rx i now f) as [[i1 f1]| |] eqn:P; simpl in H; try discriminate.
+    inversion H; subst. apply process_rx_ok in P. destruct P as ((A&B&C&_) & S & R).
     split; [exact C|]. split; [exact A|]. split; [exact B|]. split; [exact S|].
     apply rate_ok_trate; exact R.
   - destruct (nh_dispatch_ip i dst tag now) as [[[i1 f1] r1]| |] eqn:P; simpl in H; try discriminate.
@@ -848,26 +886,27 @@ Qed.
    hop limit 255, unicast source, accepted destination, unicast link-layer address option and
    unicast target *)
 Definition fill_cause (i : iface) (f : rxframe) (k : ipaddr) (hw : Z) : Prop :=
-  eth_accept i (rx_edst f) = true /\ link_ok i f = true /\
+  medium_accept i f = true /\ link_ok i f = true /\
   match f with
   | RxArp _ op sha spa tpa => k = V4 spa /\ hw = sha /\ arp_valid i op sha spa tpa = true
   | RxV4Echo _ _ _ _ => False
-  | RxV6 _ _ src dst hop p =>
+  | RxV6 _ _ src dst hop p | Rx154 _ _ _ src dst hop p =>
       k = V6 src /\ hop = 255 /\ v6_accept i src dst = true /\
       match p with
       | P6Na target (Some l) _ | P6Ns target (Some l) =>
-          hw = l /\ hw_is_unicast i l = true /\ v6_x_is_unicast target = true
+          hw = l /\ hw_option_ok i l = true /\ hw_is_unicast i l = true /\ v6_x_is_unicast target = true
       | _ => False
       end
   end.
 
 (* a refresh is caused only by an accepted IP packet to a unicast destination, from (k, hw) *)
 Definition refresh_cause (i : iface) (f : rxframe) (k : ipaddr) (hw : Z) : Prop :=
-  eth_accept i (rx_edst f) = true /\ link_ok i f = true /\
+  medium_accept i f = true /\ link_ok i f = true /\
   match f with
   | RxArp _ _ _ _ _ => False
   | RxV4Echo _ esrc src dst => k = V4 src /\ hw = esrc /\ v4_accept i src dst = true /\ nh_is_unicast_v4 i dst = true
-  | RxV6 _ esrc src dst _ _ => k = V6 src /\ hw = esrc /\ v6_accept i src dst = true /\ v6_x_is_unicast dst = true
+  | RxV6 _ esrc src dst _ _ | Rx154 _ _ esrc src dst _ _ =>
+      k = V6 src /\ hw = esrc /\ v6_accept i src dst = true /\ v6_x_is_unicast dst = true
   end.
 
 Lemma rx_log_sound : forall i now f op, In op (rx_log i now f) ->
@@ -879,25 +918,39 @@ Lemma rx_log_sound : forall i now f op, In op (rx_log i now f) ->
   end.
 Proof.
   intros i now f op H. unfold rx_log in H. unfold fill_cause, refresh_cause.
-  destruct (eth_accept i (rx_edst f)) eqn:A; cbn [negb] in H; [|destruct H].
+  destruct (medium_accept i f) eqn:A; cbn [negb] in H; [|destruct H].
   destruct (link_ok i f) eqn:LK; cbn [negb] in H; [|destruct H].
-  destruct f as [e o sha spa tpa|e esrc src dst|e esrc src dst hop p].
-  - destruct (arp_valid i o sha spa tpa) eqn:V; [|destruct H].
-    destruct H as [H|[]]; subst. repeat split; auto.
-  - destruct (v4_accept i src dst && nh_is_unicast_v4 i dst) eqn:V; [|destruct H].
-    apply andb_true_iff in V. destruct H as [H|[]]; subst. repeat split; tauto.
-  - unfold v6_log in H. destruct (v6_accept i src dst) eqn:V; [|destruct H].
+  assert (V6C : forall esrc src dst hop p, In op (v6_log i now esrc src dst hop p) ->
+    match op with
+    | CFill k hw t => t = now /\ k = V6 src /\ hop = 255 /\ v6_accept i src dst = true /\
+        match p with
+        | P6Na target (Some l) _ | P6Ns target (Some l) =>
+            hw = l /\ hw_option_ok i l = true /\ hw_is_unicast i l = true /\ v6_x_is_unicast target = true
+        | _ => False
+        end
+    | CReset k hw t => t = now /\ k = V6 src /\ hw = esrc /\ v6_accept i src dst = true /\ v6_x_is_unicast dst = true
+    | _ => False
+    end).
+  { clear. intros esrc src dst hop p H. unfold v6_log in H. destruct (v6_accept i src dst) eqn:V; [|destruct H].
     apply in_app_iff in H. destruct H as [H|H].
     + destruct (v6_x_is_unicast dst) eqn:U; [|destruct H].
       destruct H as [H|[]]; subst. repeat split; auto.
     + destruct (hop =? 255) eqn:HP; [|destruct H]. apply Z.eqb_eq in HP.
       destruct p as [|target [l|] ovr|target [l|]]; try (destruct H; fail).
       * match type of H with In _ (if ?c then _ else _) => destruct c eqn:C end; [|destruct H].
-        apply andb_true_iff in C. destruct C as [C _]. apply andb_true_iff in C.
-        destruct H as [H|[]]; subst. repeat split; tauto.
-      * match type of H with In _ (if ?c then _ else _) => destruct c eqn:C end; [|destruct H].
+        apply andb_true_iff in C. destruct C as [C _]. apply andb_true_iff in C. destruct C as [C C3].
         apply andb_true_iff in C.
         destruct H as [H|[]]; subst. repeat split; tauto.
+      * match type of H with In _ (if ?c then _ else _) => destruct c eqn:C end; [|destruct H].
+        apply andb_true_iff in C. destruct C as [C C3]. apply andb_true_iff in C.
+        destruct H as [H|[]]; subst. repeat split; tauto. }
+  destruct f as [e o sha spa tpa|e esrc src dst|e esrc src dst hop p|panok ldst lsrc src dst hop p].
+  - destruct (arp_valid i o sha spa tpa) eqn:V; [|destruct H].
+    destruct H as [H|[]]; subst. repeat split; auto.
+  - destruct (v4_accept i src dst && nh_is_unicast_v4 i dst) eqn:V; [|destruct H].
+    apply andb_true_iff in V. destruct H as [H|[]]; subst. repeat split; tauto.
+  - apply V6C in H. destruct op; try tauto.
+  - apply V6C in H. destruct op; try tauto.
 Qed.
 
 (* every operation of the learning history of a run belongs to one event, processed in the state
